@@ -17,6 +17,12 @@
 //! This file is self-contained (std + syn + serde_json) because `build.rs` includes it too: the typed Rust
 //! registry (`$OUT_DIR/typed_registry.rs`, see `rust_registry`) is produced at build time from the very tree
 //! the harness is compiled against.
+//!
+//! Two methods (follow-up 4): the `#[pdf(..)]` schemas are read off the source with `syn` (attributes are
+//! declarations). Byte classes, numeric limits, the facts about the `Option` reader and the tag ↔ variant dispatch of
+//! the hand-written readers / writers are *observed* by probing the compiled crate (`c15_probe.rs`, harness binary
+//! only) wherever they are observable; the source patterns below are then the fallback and a cross-check
+//! (`finalize`: the behaviour wins, a disagreement is a note, an item neither method determines is a failure).
 
 use serde_json::{json, Value};
 use std::collections::{BTreeMap, BTreeSet};
